@@ -86,7 +86,7 @@ pub fn any_in<F: Fn(Class) -> bool>(s: &[Class; 8], a: usize, b: usize, p: F) ->
 { unimplemented!() }
 ''')
 u.extract(X, 'fn classify_arg', key='post_merge', rewrites=[ANY],
-          lift=dict(start_at='if n > 2 {', end_at='Some(classes)\n    }',
+          lift=dict(start_after='classify_eight_byte(ty, &mut classes, 0);', end_at='Some(classes)\n    }',
                     sig='fn post_merge(mut classes: [Class; 8], n: usize) -> (res: Option<[Class; 8]>)',
                     why='the tail of classify_arg after the recursive classification (the psABI "post merger cleanup") lifted into a function'),
           contract='''
@@ -128,3 +128,140 @@ u.extract(A, 'impl PassMode::fn direct', wrap=IMPLP, contract='    ensures pm_vi
 u.extract(A, 'impl PassMode::fn indirect_by_val', wrap=IMPLP, contract='    ensures pm_view(res) == PMV::Indirect(Some(size))')
 u.extract(A, 'struct FnAbi', keep_derives=set(), pub_fields=True)
 u.extract(A, 'impl FnAbi::fn new', wrap=('impl FnAbi {', '}'), contract='    ensures res.args@.len() == 0, res.ret is None')
+
+u.extract('crates/codegen/src/convert.rs', 'enum FinalTy', keep_derives={'Clone', 'Copy'})
+u.extract('crates/codegen/src/convert.rs', 'struct NumberType', keep_derives={'Clone', 'Copy'})
+u.raw('''
+pub uninterp spec fn tfinal(ty: Ty) -> FinalTy;
+pub uninterp spec fn ty_is_aggregate(t: Ty) -> bool;
+pub uninterp spec fn ty_zero_sized(t: Ty) -> bool;
+impl Ty {
+    // ASSUMED names only (bodies are under contract in units memory / not at all)
+    #[verifier::external_body]
+    pub fn is_aggregate(&self) -> (r: bool) ensures r == ty_is_aggregate(*self) { unimplemented!() }
+    #[verifier::external_body]
+    pub fn is_zero_sized(&self) -> (r: bool) ensures r == ty_zero_sized(*self) { unimplemented!() }
+}
+impl Intern<Ty> {
+    // `GetFinalTy::get_final_ty`: a table read
+    #[verifier::external_body]
+    pub fn get_final_ty(&self) -> (r: FinalTy) ensures r == tfinal(*self.0) { unimplemented!() }
+}
+pub fn usize_to_u16(x: usize) -> (r: u16) requires x <= 0xffff ensures r == x { x as u16 }
+pub assume_specification[u32::next_multiple_of](x: u32, m: u32) -> (r: u32)
+    requires m > 0, x <= 0xffff_0000, m <= 0x1000
+    ensures r >= x, r < x + m, r % m == 0;
+''')
+u.extract('crates/codegen/src/convert.rs', 'impl FinalTy::fn into_real_type', wrap=('impl FinalTy {', '}'), contract='''
+    ensures self is Number ==> res == Some(self->Number_0.ty), self is Pointer ==> res == Some(self->Pointer_0),
+        !(self is Number) && !(self is Pointer) ==> res is None
+''')
+# classify_arg as a whole: stub for now (its parts are under contract above)
+u.raw('''
+pub uninterp spec fn classify_spec(ty: Ty) -> Option<Seq<Class>>;
+#[verifier::external_body]
+pub fn classify_arg(ty: Intern<Ty>) -> (r: Option<[Class; 8]>)
+    ensures r is Some <==> classify_spec(*ty.0) is Some, r is Some ==> r->0@ == classify_spec(*ty.0)->0 && classes_ok(*ty.0, r->0@)
+{ unimplemented!() }
+''')
+
+# the closure `push_direct` captures nothing: its body is verified as a function of the same
+# name (R5) and its definition is removed from fn_ty_to_abi, whose calls then reach that function
+u.extract(X, 'fn fn_ty_to_abi', key='push_direct',
+          lift=dict(anchor='let push_direct = |arg: Intern<Ty>, cls: &[_], to: &mut Vec<_>, idx: u16|',
+                    sig='fn push_direct(arg: Intern<Ty>, cls: &[Class], to: &mut Vec<(PassMode, u16)>, idx: u16)',
+                    why='the body of the capture-free closure `push_direct` of fn_ty_to_abi lifted into a function of the same name and parameter list'),
+          contract='''
+    requires
+        ty_is_aggregate(*arg.0) ==> cls@.len() == 8 && classes_ok(*arg.0, cls@),
+        !ty_is_aggregate(*arg.0) ==> has_machine_type(*arg.0),
+    ensures
+        final(to)@.len() == old(to)@.len() + 1, final(to)@.drop_last() == old(to)@,
+        final(to)@.last().1 == idx,
+        pm_view(final(to)@.last().0) == in_registers(*arg.0, cls@),
+''')
+
+SIG = Rewrite('R4', r'pub fn fn_ty_to_abi\(\(args, ret\): \(&\[ParamTy\], Intern<Ty>\)\) -> FnAbi', 'pub fn fn_ty_to_abi(args: &[ParamTy], ret: Intern<Ty>) -> FnAbi', count=1,
+              why='tuple pattern in the parameter list -> two parameters (callers pass a tuple literal)')
+NOCLOSURE = Rewrite('R5', r'let push_direct = \|arg: Intern<Ty>, cls: &\[_\], to: &mut Vec<_>, idx: u16\| \{[\s\S]*?\n    \};\n', '', count=1,
+                    why='definition of the capture-free closure `push_direct` removed: its body is verified as function push_direct above, which the calls now reach')
+TRYINTO = Rewrite('R4', r'idx\.try_into\(\)\.unwrap\(\)', 'usize_to_u16(idx)', count=4, why='`usize -> u16` via TryInto + unwrap -> a function that REQUIRES the value to fit (proved)')
+u.extract(X, 'fn fn_ty_to_abi', rewrites=[SIG, NOCLOSURE, TRYINTO], desugar_for={0: ('ai', 'enum_ref'), 1: ('ci', 'val')},
+          contract='''
+    requires
+        args@.len() <= 0xffff,
+        !ty_zero_sized(*ret.0) && !ty_is_aggregate(*ret.0) ==> has_machine_type(*ret.0),
+        forall|i: int| 0 <= i < args@.len() && !ty_zero_sized(*(#[trigger] args@[i]).ty.0) && !ty_is_aggregate(*args@[i].ty.0) ==> has_machine_type(*args@[i].ty.0),
+        forall|i: int| 0 <= i < args@.len() ==> stride_of(*(#[trigger] args@[i]).ty.0) <= 0x4000_0000,
+    ensures
+        // the return value, then the arguments left to right with the registers that are left
+        ret_view(res.ret) == pass_ret(*ret.0).0,
+        args_match(res.args@, pass_args(args@, args@.len() as int, pass_ret(*ret.0).1).0),
+''', inserts=[
+    ('push_direct(arg.ty, &classes, &mut sig.args, usize_to_u16(idx))', 'after', '''; proof {
+                        let r0 = pass_ret(*ret.0).1;
+                        let prev = pass_args(args@, ai - 1, r0);
+                        assert(*arg == args@[ai - 1]);
+                        assert(classify_spec(*arg.ty.0) == Some(classes@));
+                        assert(needed_int == count_class(classes@, Class::Int, 8));
+                        assert(pm_view(sig.args@.last().0) == in_registers(*arg.ty.0, classes@));
+                        assert(pass_arg(*arg.ty.0, prev.1).0 == Some(in_registers(*arg.ty.0, classes@)));
+                        let p1 = pass_args(args@, ai as int, r0).0;
+                        assert(p1 == prev.0.push((in_registers(*arg.ty.0, classes@), (ai - 1) as u16)));
+                        assert forall|j: int| 0 <= j < sig.args@.len() implies pm_view(#[trigger] sig.args@[j].0) == p1[j].0 && sig.args@[j].1 == p1[j].1 by {
+                            if j < v0.len() { assert(sig.args@[j] == sig.args@.drop_last()[j]); }
+                        }
+                        assert(args_match(sig.args@, p1));
+                    } '''),
+    ('push_direct(arg.ty, &classes, &mut sig.args, usize_to_u16(idx))', 'before', 'let ghost v0 = sig.args@; '),
+], loops={0: '''
+        invariant
+            0 <= ai <= it_ai@.len(), it_ai@ == args@, args@.len() <= 0xffff,
+            forall|i: int| 0 <= i < args@.len() && !ty_zero_sized(*(#[trigger] args@[i]).ty.0) && !ty_is_aggregate(*args@[i].ty.0) ==> has_machine_type(*args@[i].ty.0),
+            forall|i: int| 0 <= i < args@.len() ==> stride_of(*(#[trigger] args@[i]).ty.0) <= 0x4000_0000,
+            ret_view(sig.ret) == pass_ret(*ret.0).0,
+            args_match(sig.args@, pass_args(args@, ai as int, pass_ret(*ret.0).1).0),
+            (Regs { ints: int_regs as int, sses: sse_regs as int }) == pass_args(args@, ai as int, pass_ret(*ret.0).1).1,
+            int_regs <= 6, sse_regs <= 8,
+        decreases it_ai@.len() - ai
+''', 1: '''
+                invariant
+                    0 <= ci <= 8, it_ci@ == classes@,
+                    needed_int == count_class(classes@, Class::Int, ci as int), needed_sse == count_class(classes@, Class::Sse, ci as int),
+                    needed_int <= ci, needed_sse <= ci,
+                decreases 8 - ci
+'''})
+
+u.expected += ['lemma_merge_laws', 'lemma_merge_closed']
+
+MUTANTS = [
+    (X, '(Int, _) | (_, Int) => Int,', '(Int, _) | (_, Int) => Sse,', 'violation'),
+    (X, '(class, NoClass) | (NoClass, class) => class,', '(class, NoClass) | (NoClass, class) => NoClass,', 'violation'),
+    (X, """            if size < 8 {
+                ir::Type::int_with_byte_size((size as u16).next_power_of_two())""", """            if size < 4 {
+                ir::Type::int_with_byte_size((size as u16).next_power_of_two())""", 'violation'),
+    (X, """                    4 => ir::types::F32,
+                    _ => ir::types::F64,""", """                    8 => ir::types::F64,
+                    _ => ir::types::F32,""", 'violation'),
+    (X, 'let off = i * 8;', 'let off = i * 4;', 'violation'),
+    (X, 'if aggr.size() as usize > off {', 'if aggr.size() as usize >= off {', 'violation'),
+    (X, '    if n > 2 {\n', '    if n > 3 {\n', 'violation'),
+    (X, 'let mut int_regs: usize = 6;', 'let mut int_regs: usize = 5;', 'violation'),
+    (X, 'let mut sse_regs: usize = 8;', 'let mut sse_regs: usize = 6;', 'violation'),
+    (X, """            int_regs -= 1;
+            sig.ret = Some(PassMode::indirect_by_val(ret.size() as usize));""", """            sig.ret = Some(PassMode::indirect_by_val(ret.size() as usize));""", 'violation'),
+    (X, 'Class::Int => needed_int += 1,', 'Class::Int | Class::Sse => needed_int += 1,', 'violation'),
+    (X, """                (Some(left_int), Some(left_sse)) => {
+                    int_regs = left_int;
+                    sse_regs = left_sse;""", """                (Some(left_int), Some(left_sse)) => {
+                    int_regs = left_int;""", 'violation'),
+    (X, """        if arg.ty.is_zero_sized() {
+            continue;
+        }""", """        if arg.ty.is_zero_sized() {
+            int_regs = int_regs.saturating_sub(1);
+            continue;
+        }""", 'violation'),
+    # harmless
+    (X, 'println!("no class");', 'println!("no class!");', 'ok'),
+    (X, '// (f) Otherwise class SSE is used\n            _ => Class::Sse,', '// (f) Otherwise class SSE is used\n            (_, _) => Class::Sse,', 'ok'),
+]
